@@ -1,65 +1,197 @@
+// Command c03 decides property C03 (emitted SQL is closed: every name, column and parameter it uses is defined).
+//
+// Engine E3: every statement the translator emits for the feature-grammar enumeration (all feature sets with <= k
+// features, including updating clauses and shortest paths) and for every corpus query is bound by verif/pgbind, an own
+// traversal of the pgsql AST with PostgreSQL's scoping rules and the schema extracted from schema_up.sql.
 package main
 
 import (
 	"fmt"
 	"os"
+	"regexp"
 	"sort"
-	"time"
+	"strings"
+	"sync"
 
+	"verif/core"
 	"verif/enum/cyq"
+	"verif/pgbind"
 	"verif/xlate"
 )
 
-func main() {
-	k := 2
-	if len(os.Args) > 1 {
-		fmt.Sscan(os.Args[1], &k)
+type artefact struct {
+	Text   string         `json:"text"`
+	Params map[string]any `json:"params,omitempty"`
+	Source string         `json:"source"`
+	Issue  string         `json:"issue"`
+	SQL    string         `json:"sql,omitempty"`
+}
+
+var (
+	reStr = regexp.MustCompile(`'(?:[^']|'')*'`)
+	reNum = regexp.MustCompile(`\b\d+(?:\.\d+)?\b`)
+)
+
+func skeleton(sql string) string {
+	return reNum.ReplaceAllString(reStr.ReplaceAllString(sql, "'?'"), "0")
+}
+
+type verdict struct {
+	outcome  string
+	issues   []pgbind.Issue
+	rep      *pgbind.Report
+	sql      string
+	updating bool
+}
+
+func judge(schema *pgbind.Schema, it xlate.Item, km *xlate.Mapper) verdict {
+	q, err := cyq.Parse(it.Text)
+	if err != nil {
+		return verdict{outcome: "parse-error"}
 	}
-	t0 := time.Now()
-	qs := cyq.EnumerateWith(k, cyq.Options{Parameters: true, ShortestPaths: true, Updating: true})
-	fmt.Println("enumerated", len(qs), time.Since(t0))
-	fmt.Println("corpus", len(cyq.Corpus()), "translation corpus", len(cyq.TranslationCorpus()), "distinct", len(cyq.CorpusTexts()))
-	km := cyq.KindMapper()
-	counts := map[string]int{}
-	errs := map[string]int{}
-	errEx := map[string]string{}
-	t0 = time.Now()
-	for _, q := range qs {
-		o := xlate.Text(q.Text, km, nil)
-		counts[o.Kind()]++
-		if !o.OK() {
-			key := o.Kind() + ": " + o.Err + o.Panic
-			if len(key) > 90 {
-				key = key[:90]
-			}
-			errs[key]++
-			if errEx[key] == "" {
-				errEx[key] = q.Text
-			}
+	xlate.SetParameterValues(q, it.Params)
+	updating, walked := xlate.HasUpdatingClause(q)
+	o := xlate.AST(q, km.KindMapper, it.Params)
+	if !o.OK() {
+		return verdict{outcome: o.Kind()}
+	}
+	rep := pgbind.Statement(schema, o.Result.Statement)
+	v := verdict{outcome: "ok", rep: rep, sql: o.SQL, updating: updating}
+	sh := shapeOf(q)
+	for _, is := range rep.Issues {
+		is.Class = classOf(is.Class, sh)
+		v.issues = append(v.issues, is)
+	}
+	for _, p := range rep.Params {
+		if _, has := o.Params[p]; !has {
+			v.issues = append(v.issues, pgbind.Issue{Class: "parameter-without-value", Detail: fmt.Sprintf("@%s is referenced by the statement but Result.Parameters has keys %v", p, keys(o.Params))})
 		}
 	}
-	fmt.Println(counts, time.Since(t0))
-	keys := []string{}
-	for k := range errs {
-		keys = append(keys, k)
+	if len(rep.DML) > 0 && walked && !updating {
+		v.issues = append(v.issues, pgbind.Issue{Class: "dml-without-updating-clause", Detail: fmt.Sprintf("statement contains %v but the Cypher query has no CREATE/SET/REMOVE/DELETE/MERGE", rep.DML)})
 	}
-	sort.Slice(keys, func(i, j int) bool { return errs[keys[i]] > errs[keys[j]] })
-	for _, k := range keys {
-		fmt.Printf("%5d %s\n      e.g. %s\n", errs[k], k, errEx[k])
+	return v
+}
+
+func keys(m map[string]any) []string {
+	out := make([]string, 0, len(m))
+	for k := range m {
+		out = append(out, k)
 	}
-	cc := map[string]int{}
-	for _, c := range cyq.Corpus() {
-		q, err := cyq.Parse(c.Text)
-		if err != nil {
-			cc["parse-error"]++
+	sort.Strings(out)
+	return out
+}
+
+func main() {
+	run := core.Start("C03", "exploration")
+	schema, err := pgbind.LoadSchema(cyq.RepoRoot())
+	if err != nil {
+		core.Fatalf("schema: %v", err)
+	}
+	if run.Replay != "" {
+		replay(run, schema)
+		return
+	}
+	k := 2
+	if run.Tier == core.Thorough {
+		k = 3
+	}
+	items := xlate.Items(k)
+	run.Set("feature_bound_k", int64(k))
+	run.Set("rule", fmt.Sprintf("all feature sets with <= %d features over %d features on top of MATCH (n) RETURN n (read fragment + parameters + shortest paths + updating clauses), plus every corpus query with its parameters; every emitted statement bound by pgbind", k, len(cyq.FeatureNames(xlate.AllOptions))))
+	run.Set("schema_tables", int64(len(schema.Tables)))
+	run.Set("schema_functions", int64(len(schema.Funcs)))
+
+	var mu sync.Mutex
+	skeletons := map[string]bool{}
+	outside := map[string]int64{}
+	outcomes := map[string]int64{}
+	mappers := make([]*xlate.Mapper, xlate.Workers())
+	for i := range mappers {
+		mappers[i] = xlate.NewMapper()
+	}
+	verdicts := make([]verdict, len(items))
+	xlate.Parallel(len(items), func(w, i int) {
+		verdicts[i] = judge(schema, items[i], mappers[w])
+	})
+	// sequential, in enumeration order (simplest first), so that the kept witness per class is the simplest
+	hist := map[string]int64{}
+	var bound, refs, fieldRefs, params, dmlStmts, harnessText, arity, levels, fullyBound int64
+	for i, v := range verdicts {
+		it := items[i]
+		mu.Lock()
+		outcomes[v.outcome]++
+		mu.Unlock()
+		if v.outcome != "ok" {
 			continue
 		}
-		xlate.SetParameterValues(q, c.Params)
-		o := xlate.AST(q, km, c.Params)
-		cc[o.Kind()]++
-		if !o.OK() {
-			fmt.Println("CORPUS", o.Kind(), c.Source, c.Text, "=>", o.Err, o.Panic)
+		bound++
+		refs += int64(v.rep.Resolved)
+		fieldRefs += int64(v.rep.FieldRefs)
+		params += int64(len(v.rep.Params))
+		arity += int64(v.rep.CTEArityChecked)
+		levels += int64(v.rep.Levels)
+		if len(v.rep.DML) > 0 {
+			dmlStmts++
+		}
+		harnessText += int64(len(v.rep.HarnessText))
+		if len(v.rep.Outside) == 0 {
+			fullyBound++
+		}
+		for what, n := range v.rep.Outside {
+			outside[what] += int64(n)
+		}
+		if v.rep.Levels >= 2 {
+			skeletons[skeleton(v.sql)] = true
+		}
+		if i == 0 || i == len(items)/2 || i == len(items)-1 {
+			run.Sample(map[string]any{"text": it.Text, "sql": v.sql, "resolved_references": v.rep.Resolved, "levels": v.rep.Levels})
+		}
+		for _, is := range v.issues {
+			hist[is.Class]++
+			if os.Getenv("C03_DEBUG") != "" {
+				fmt.Printf("DEBUG\t%s\t%s\t%s\t%s\n", is.Class, it.Text, is.Detail, strings.Join(it.Features, ","))
+			}
+			run.Report(core.Violation{Class: is.Class, Summary: fmt.Sprintf("%s  [query: %s]", is.Detail, it.Text),
+				Artefact: artefact{Text: it.Text, Params: it.Params, Source: it.Source, Issue: is.Class + ": " + is.Detail, SQL: v.sql}})
 		}
 	}
-	fmt.Println(cc)
+	run.Add("evaluations", bound)
+	run.Add("queries", int64(len(items)))
+	run.Set("distinct_nontrivial", int64(len(skeletons)))
+	run.Add("references_resolved", refs)
+	run.Add("composite_field_references_checked", fieldRefs)
+	run.Add("parameter_references_checked", params)
+	run.Add("cte_column_lists_checked", arity)
+	run.Add("select_levels", levels)
+	run.Add("statements_with_dml", dmlStmts)
+	run.Add("statements_fully_inside_binder", fullyBound)
+	run.Add("harness_sql_text_fragments_outside_binder", harnessText)
+	run.Set("translation_outcomes", outcomes)
+	run.Set("outside_binder", outside)
+	run.Set("issue_histogram", hist)
+	run.Assume("the binder's scoping rules are PostgreSQL's (CTE visibility, LATERAL/JOIN ON, correlated sub-queries, GROUP BY/ORDER BY output names); the schema is the one parsed from drivers/pg/query/sql/schema_up.sql")
+	run.Assume("SQL passed as text to the plpgsql harness functions (string parameters/literals) is not bound (no SQL parser): counted as harness_sql_text_fragments_outside_binder; its token structure is checked by C04")
+	run.Finish()
+}
+
+func replay(run *core.Run, schema *pgbind.Schema) {
+	var art artefact
+	core.LoadArtefact(run.Replay, &art)
+	v := judge(schema, xlate.Item{Text: art.Text, Params: art.Params, Source: art.Source}, xlate.NewMapper())
+	fmt.Println("cypher :", art.Text)
+	fmt.Println("outcome:", v.outcome)
+	fmt.Println("sql    :", v.sql)
+	if v.rep != nil {
+		fmt.Println("binder : resolved", v.rep.Resolved, "levels", v.rep.Levels, "params", v.rep.Params, "dml", v.rep.DML, "outside", v.rep.Outside)
+	}
+	if len(v.issues) == 0 {
+		fmt.Println("replay: no violation")
+	}
+	for _, is := range v.issues {
+		fmt.Println("issue  :", is.Class, "-", is.Detail)
+		run.Report(core.Violation{Class: is.Class, Summary: is.Detail + "  [query: " + art.Text + "]", Artefact: art})
+	}
+	_ = strings.TrimSpace
+	run.Finish()
 }
